@@ -786,6 +786,7 @@ func (r *bigFileReader) Close() error {
 	seeker, ok := r.f.(io.Seeker)
 	if !ok {
 		_ = r.f.Close()
+		r.ff.decReadersCount()
 		return errors.New("must implement seek")
 	}
 	n, err := seeker.Seek(0, io.SeekStart)
